@@ -37,6 +37,25 @@ def layoutStep (c : Colors) (s : Str) (st : Json) : Except String Str := do
   let name ← (a[0]?.getD Json.null).getStr?
   let w ← (a[1]?.getD Json.null).getInt?
   match name with
+  | "snipn" =>
+    let h ← (a[2]?.getD Json.null).getInt?
+    match Ansi.snip s w h (Style.color c ['…']) with
+    | .ok t => pure t
+    | .error _ => throw "snip panicked"
+  | "headern" =>
+    let l ← (a[2]?.getD Json.null).getNat?
+    pure (Style.header c s l)
+  | "indentp" =>
+    let k ← (a[2]?.getD Json.null).getNat?
+    let prefixes : List Str := ["  ".toList, [], [' '], ['▌'], "→ ".toList, "        ".toList,
+                                Str.ESC :: "[1m▌".toList ++ Str.ESC :: "[0m".toList]
+    pure (Ansi.indent s (prefixes.getD (k % prefixes.length) []) (w % 2 == 0))
+  | "codeblock" => pure (Style.codeBlock c s)
+  | "style" =>
+    let k ← (a[2]?.getD Json.null).getNat?
+    let fns : List (Str → Str) := [Style.bold, Style.italic, Style.underline, Style.strikethrough,
+                                    Style.color c, Style.red c, Style.code c, Style.highlight c]
+    pure ((fns.getD (k % fns.length) id) s)
   | "wrap" => pure (Ansi.wrap s w)
   | "dumbwrap" => pure (Ansi.dumbWrap s w)
   | "pad" => pure (Ansi.pad s w)
@@ -52,7 +71,7 @@ def layoutStep (c : Colors) (s : Str) (st : Json) : Except String Str := do
   | _ => throw "bad layout step"
 
 def styleExprOp (j : Json) : Except String Res := do
-  let c := defaultColors
+  let c := opColors j
   let e ← j.getObjVal? "e"
   let (s0, cells) ← seEval c e
   let layout ← arr j "layout"
